@@ -16,6 +16,7 @@ import (
 	"net"
 	"os"
 	"sync"
+	"syscall"
 	"time"
 )
 
@@ -82,7 +83,7 @@ func Dial(real func(network, addr string) (net.Conn, error), network, addr strin
 		return newConn(addr, s)
 	}
 	if Strict {
-		return nil, &net.OpError{Op: "dial", Net: network, Err: errors.New("vnet: connection refused (no server registered for " + addr + ")")}
+		return nil, &net.OpError{Op: "dial", Net: network, Err: os.NewSyscallError("connect", syscall.ECONNREFUSED)} // (vnet: no server registered for addr)
 	}
 	return real(network, addr)
 }
@@ -93,7 +94,7 @@ func DialTimeout(real func(network, addr string, d time.Duration) (net.Conn, err
 		return newConn(addr, s)
 	}
 	if Strict {
-		return nil, &net.OpError{Op: "dial", Net: network, Err: errors.New("vnet: connection refused (no server registered for " + addr + ")")}
+		return nil, &net.OpError{Op: "dial", Net: network, Err: os.NewSyscallError("connect", syscall.ECONNREFUSED)} // (vnet: no server registered for addr)
 	}
 	return real(network, addr, d)
 }
@@ -226,7 +227,8 @@ func (c *Conn) Kill(drop bool) {
 	if c.srvErr == nil {
 		if drop {
 			c.rbuf = nil
-			c.srvErr = &net.OpError{Op: "read", Net: "tcp", Err: errors.New("connection reset by peer")}
+			// what a reset TCP connection returns: *net.OpError{*os.SyscallError{ECONNRESET}} (errors.Is(err, syscall.ECONNRESET) holds)
+			c.srvErr = &net.OpError{Op: "read", Net: "tcp", Err: os.NewSyscallError("read", syscall.ECONNRESET)}
 		} else {
 			c.srvErr = io.EOF
 		}
